@@ -4,27 +4,27 @@ CONSTANTS
   Bytes <- C14_Bytes
   RefetchChoices <- C14_Refetch1
   RejectChoices <- C14_Reject1
-  NChunks1 = 2
+  NChunks1 = 1
   NChunks2 = 1
   SameHF = FALSE
   Fetchers = 0
   MaxPerPeer = 10
-  MaxArrive = 2
-  MaxBad = 1
-  MaxChurn = 0
+  MaxArrive = 0
+  MaxBad = 2
+  MaxChurn = 1
   Atomic = TRUE
-  InitPool <- C14_PoolS1
+  InitPool <- C14_PoolBoth
   Fix_DropRejectedSenderChunks = TRUE
   Weak_AppHashFromPeer = FALSE
   Weak_SkipVerifyApp = FALSE
   Weak_VerifyHashOnly = FALSE
   Weak_NextUpAnyOrder = FALSE
   Weak_BlacklistForgets = FALSE
-  Weak_RefetchIgnored = TRUE
+  Weak_RefetchIgnored = FALSE
   Weak_RejectSendersIgnored = FALSE
   Weak_DupOverwrites = FALSE
   Weak_RejectNotBlacklisted = FALSE
-  Weak_FormatNotBlacklisted = FALSE
+  Weak_FormatNotBlacklisted = TRUE
   Weak_NoSyncerLevelCheck = FALSE
 INIT Init
 NEXT Next
